@@ -65,6 +65,10 @@ TYPES = ['SimpleContract', 'Contract', 'Transport', 'ExtendedTransport', 'Storag
 
 def gen_case(rnd, oracle=None, kind=None, atype=None):
     fine = rnd.choice(['h', 'h', 'h', 'h', '30min', '15min', '2h', 'd'])
+    dst = rnd.random() < 0.08   # daily steps of 23/24/25 hours: fine steps of unequal length under a coarse frequency
+    if dst:
+        fine = 'd'
+        kind = kind or rnd.choice(['freq', 'freq', 'both'])
     tab = FINE[fine]
     kind = kind or rnd.choice(['freq', 'freq', 'per', 'per', 'perdur', 'perdur', 'both', 'bothdur'])
     if oracle is None:
@@ -94,10 +98,13 @@ def gen_case(rnd, oracle=None, kind=None, atype=None):
         T = rnd.randint(3, tmax)
     tz = None
     start = pd.Timestamp('2021-01-01') + rnd.choice([0, 0, 0, 6, 24]) * pd.Timedelta(hours=1)
-    if rnd.random() < 0.15:
-        tz = rnd.choice(['CET', 'UTC', 'US/Eastern'])
-        if rnd.random() < 0.6:
-            start = pd.Timestamp(rnd.choice(['2021-03-27 00:00', '2021-10-30 00:00']))
+    if rnd.random() < (0.5 if fine == 'd' else 0.2):
+        tz = rnd.choice(['CET', 'CET', 'UTC', 'US/Eastern'])
+        if rnd.random() < 0.7:
+            start = pd.Timestamp(rnd.choice(['2021-03-27 00:00', '2021-10-30 00:00', '2021-03-26 00:00', '2021-03-13 00:00']))
+    if dst:
+        tz = 'CET'
+        start = pd.Timestamp(rnd.choice(['2021-03-26 00:00', '2021-03-27 00:00', '2021-10-29 00:00', '2021-10-30 00:00']))
     if fine == 'd':
         start = start.normalize()
     end = start + T * step
@@ -457,13 +464,13 @@ def compare(case, impl_result, drv):
 
 
 def cmp_periodic(name, m, after):
+    if 'err' not in after and any(r['var'] < 0 for r in after['mapping']):
+        after = {'err': 'chain'}   # no exception in the code: the mapping index holds -1
     if 'err' in m or 'err' in after:
         me, ie = m.get('err', 'ok'), after.get('err', 'ok')
         if me != ie:
             return ['%s: %s (model) vs %s (impl)' % (name, me, ie)]
         return []
-    if any(r['var'] < 0 for r in after['mapping']):
-        return ['%s: implementation produced a negative label, model did not report a chain' % name]
     out = cmp_asset(name, m['problem'], after)
     if not m.get('generic', True):
         out.append('%s: model result differs from the generic merge along its leader map (C13.merge_columns does not apply)' % name)
@@ -765,6 +772,119 @@ def oracle(case, impl_result=None):
     return viol, feats
 
 
+# ------------------------------------------------------------------ synthetic (partly malformed) inputs, methods called directly
+def gen_synthetic(rnd):
+    T = rnd.randint(2, 10)
+    n = rnd.randint(2, 8)
+    mode = rnd.choice(['plain', 'multi', 'multi', 'nan', 'factor', 'oob', 'two_assets'])
+    rows = []
+    for v in range(n):
+        k = 1 if mode == 'plain' else rnd.choice([1, 1, 2, 3])
+        for _ in range(k):
+            r = {'var': v, 'step': rnd.randrange(T) if mode != 'plain' else v % T, 'node': 'n1', 'asset': 'a', 'type': 'd',
+                 'var_name': 'x', 'factor': 1.0}
+            if mode in ('multi', 'nan', 'two_assets') and rnd.random() < 0.3:
+                r['node'] = 'n2'
+            if mode == 'nan' and rnd.random() < 0.3:
+                r['node'] = None
+                r['type'] = 'i'
+            if mode == 'two_assets' and rnd.random() < 0.4:
+                r['asset'] = 'b'
+            if rnd.random() < 0.15:
+                r['var_name'] = 'y'
+            if mode == 'factor':
+                r['factor'] = rnd.choice([1.0, 1.0, 0.5, -1.0])
+            if mode == 'oob' and rnd.random() < 0.15:
+                r['var'] = n + rnd.randrange(2)
+            rows.append(r)
+    rnd.shuffle(rows) if rnd.random() < 0.3 else None
+    m = rnd.randint(0, 3)
+    A = [[(q8(rnd, -2, 2) if rnd.random() < 0.6 else 0.0) for _ in range(n)] for _ in range(m)]
+    return {'synthetic': True, 'T': T, 'n': n, 'rows': rows, 'has_factor': mode in ('factor',) or rnd.random() < 0.3,
+            'c': [q8(rnd, -4, 4) for _ in range(n)], 'l': [q8(rnd, -4, 0) for _ in range(n)], 'u': [q8(rnd, 0, 4) for _ in range(n)],
+            'A': A, 'b': [q8(rnd, -4, 4) for _ in range(m)], 'cType': ''.join(rnd.choice('ULS') for _ in range(m)),
+            'per': rnd.choice(['2h', '3h', '4h']), 'dur': rnd.choice([None, None, '4h', '6h']), 'mode': mode}
+
+
+def run_synthetic(case):
+    import datetime as dt
+    tg = eao.Timegrid(dt.datetime(2021, 1, 1), dt.datetime(2021, 1, 1) + dt.timedelta(hours=case['T']), freq='h')
+    rows = case['rows']
+    mp = pd.DataFrame({'time_step': [r['step'] for r in rows], 'node': [r['node'] if r['node'] is not None else np.nan for r in rows],
+                       'asset': [r['asset'] for r in rows], 'type': [r['type'] for r in rows], 'var_name': [r['var_name'] for r in rows]},
+                      index=[r['var'] for r in rows])
+    if case['has_factor']:
+        mp['disp_factor'] = [r['factor'] for r in rows]
+    A = sp.lil_matrix(np.asarray(case['A'], dtype=float)) if case['A'] else None
+    rec = Recorder()
+    res = {'ext': []}
+    try:
+        with Quiet(), rec:
+            op = OptimProblem(c=np.asarray(case['c']), l=np.asarray(case['l']), u=np.asarray(case['u']), A=A,
+                              b=np.asarray(case['b']) if case['A'] else None, cType=case['cType'] if case['A'] else None,
+                              mapping=mp, timegrid=tg, periodic_period_length=case['per'], periodic_duration=case['dur'])
+        res['with'] = {'ok': True}
+    except Exception as e:
+        res['with'] = {'err': err_class(e)}
+    res['per'] = rec.per
+    return res
+
+
+def gen_synth_extend(rnd):
+    T = rnd.choice([4, 6, 8, 9, 12])
+    freq = rnd.choice(['2h', '3h', '4h'])
+    k = rnd.randint(1, 6)
+    return {'T': T, 'freq': freq, 'has_factor': rnd.random() < 0.5,
+            'rows': [{'var': rnd.randrange(4), 'step': rnd.randrange(T) if rnd.random() < 0.25 else None, 'pos': rnd.randrange(8),
+                      'factor': rnd.choice([1.0, 0.5, -1.0, 2.0]), 'node': rnd.choice(['n1', 'n2', None])} for _ in range(k)] if rnd.random() < 0.95 else []}
+
+
+def run_synth_extend(case):
+    import datetime as dt
+    tg = eao.Timegrid(dt.datetime(2021, 1, 1), dt.datetime(2021, 1, 1) + dt.timedelta(hours=case['T']), freq='h')
+    a = eao.assets.SimpleContract(name='a', nodes=eao.Node('n1'), min_cap=-1, max_cap=1, freq=case['freq'])
+    a.set_timegrid(tg)
+    I = [int(i) for i in a.timegrid.restricted.I]
+    rows = case['rows']
+    steps = [r['step'] if r['step'] is not None else I[r['pos'] % len(I)] for r in rows]
+    mp = pd.DataFrame({'time_step': steps, 'node': [r['node'] if r['node'] is not None else np.nan for r in rows],
+                       'asset': ['a'] * len(rows), 'type': ['d'] * len(rows), 'var_name': ['disp'] * len(rows)},
+                      index=[r['var'] for r in rows]) if rows else pd.DataFrame()
+    if case['has_factor'] and rows:
+        mp['disp_factor'] = [r['factor'] for r in rows]
+    rec = Recorder()
+    try:
+        with Quiet(), rec:
+            a.__extend_mapping_to_minor_grid__(mp)
+    except Exception:
+        pass
+    return {'ext': rec.ext, 'per': [], 'with': {}}
+
+
+def selftest_synthetic(n, seed, drv, verbose=False):
+    rnd = random.Random(seed * 7907 + 5)
+    st = {'cases': 0, 'outcomes': {}, 'disagreements': []}
+    for i in range(n):
+        r = random.Random(rnd.getrandbits(48))
+        if i % 3 == 2:
+            case = gen_synth_extend(r)
+            res = run_synth_extend(case)
+            key = 'extend:' + ('err:' + res['ext'][0]['res']['err'] if res['ext'] and isinstance(res['ext'][0]['res'], dict) else 'ok')
+        else:
+            case = gen_synthetic(r)
+            res = run_synthetic(case)
+            e = res['per'][0]['after'] if res['per'] else {'err': 'no-call'}
+            neg = 'err' not in e and any(x['var'] < 0 for x in e['mapping'])
+            key = 'periodic:' + ('chain' if neg else ('err:' + e['err'] if 'err' in e else ('merged' if len(e['c']) < case['n'] else 'nothing-merged')))
+        st['cases'] += 1
+        st['outcomes'][key] = st['outcomes'].get(key, 0) + 1
+        for x in compare(case, res, drv):
+            st['disagreements'].append(('syn%d' % i, x))
+            if verbose:
+                print('DISAGREE syn%d' % i, x, json.dumps(case)[:600])
+    return st
+
+
 # ------------------------------------------------------------------ self test
 def selftest(n, seed, drv, with_oracle=True, verbose=False, log=None):
     stats = {'cases': 0, 'ext_calls': 0, 'per_calls': 0, 'with_err': 0, 'oracle_cases': 0, 'oracle_nontrivial': 0, 'value_compared': 0,
@@ -836,6 +956,13 @@ if __name__ == '__main__':
     import sys
     import time
     path = sys.argv[1]
+    if len(sys.argv) > 2 and sys.argv[2] == 'syn':
+        drv = ScratchDriver(path)
+        st = selftest_synthetic(int(sys.argv[3]), int(sys.argv[4]) if len(sys.argv) > 4 else 1, drv, verbose=True)
+        drv.close()
+        print(json.dumps({k: v for k, v in st.items() if k != 'disagreements'}, indent=1))
+        print('disagreements:', len(st['disagreements']))
+        sys.exit(0)
     n = int(sys.argv[2]) if len(sys.argv) > 2 else 50
     seed = int(sys.argv[3]) if len(sys.argv) > 3 else 1
     orc = (sys.argv[4] != 'no') if len(sys.argv) > 4 else True
